@@ -334,6 +334,24 @@ def random_structure(rng, nmax=6, atoms=('p', 'q')):
 
 # ----------------------------------------------------------------------------------------------- results
 
+# counters of the evidence that must be positive for a run to count (see Result.finish)
+NONEMPTY = {
+    'C01': ['adversarial_name_cases', 'repeated_under_python_O', 'nonconstant_answers'],
+    'C02': ['adversarial_name_cases', 'repeated_under_python_O', 'nonconstant_answers'],
+    'C03': ['adversarial_name_cases', 'degenerate_arity_cases', 'cases_inside_hypotheses_of_ctls_exact', 'repeated_under_python_O'],
+    'C05': ['same_print_different_tree_triples', 'formulas_with_one_or_no_operand_and_or'],
+    'C07': ['calls_with_F_compared_with_model', 'threaded_calls'],
+    'C08': ['is_a_state_formula_compared', 'formula_api_cases'],
+    'C10': ['language_parameter_cases', 'language_parameter_reverse_order_cases'],
+    'C11': ['pickled_across_hash_seeds'],
+    'C12': ['odd_named_graphs'],
+    'C15': ['non_fair_rewritings_compared', 'fair_labels_compared', 'get_fair_states_cases', 'modelcheck_cases'],
+    'C16': ['mixed_name_source_cases', 'histories'],
+    'C17': ['threaded_operations', 'truth_tables_compared'],
+    'C18': ['closed_expressions_over_no_variable', 'histories'],
+}
+
+
 class Result(object):
     def __init__(self, pid, tier):
         self.pid = pid
@@ -360,6 +378,12 @@ class Result(object):
         return path
 
     def finish(self):
+        # a stream that silently produced nothing would make the run pass vacuously: every counter named here must be
+        # positive (a harness error, never a verdict)
+        if not os.environ.get('VERIF_CHILD'):
+            empty = [k for k in NONEMPTY.get(self.pid, []) + ['evaluations'] if not self.coverage.get(k)]
+            if empty and not self.violations:
+                raise HarnessError('stream(s) produced no case: %s' % ', '.join(empty))
         if self.level == 'proof' and not self.coverage.get('obligations'):
             # no property theorem is claimed (yet): the run is an exploration, and says so
             self.level = 'exploration'
